@@ -40,4 +40,52 @@ example : (hullExact [(0, 0), (2, 0), (2, 0), (1, 0), (0, 0), (1, 1), (1, 1)]).N
     hullExact [(0, 0), (2, 0), (2, 0), (1, 0), (0, 0), (1, 1), (1, 1)] = [(1, 1), (0, 0), (2, 0)] := by
   decide
 
+/-! ## The code's key order (`sort_key`, fix 3c15d64) -/
+
+/-- **C35.T2j** The hull computed with the code's key order — slope key `dx / (0 − dy)` compared
+exactly, `dy = 0 ↦ +∞`, ties by squared distance, pivot first — is the hull computed with the
+orientation form of that order, for every input.  (The two comparators agree on every pair of
+input points because all input points other than the pivot lie in the half-plane below it;
+`keyLe_eq_exactLe`.)  Everything proved or kernel-checked for `hullExact` therefore holds for
+the model `hullKey` that the driver runs against the code.  The `f64` side (assumption A-f64 in
+`Model/Poly.lean`) is not proved. -/
+theorem hullKey_eq_hullExact (pts : List Pt) : hullKey pts = hullExact pts := by
+  unfold hullKey hullExact
+  cases hm : minPoint pts with
+  | none => rfl
+  | some m =>
+    simp only [hullWith]
+    obtain ⟨_, hmin⟩ := c35_minPoint_spec pts m hm
+    rw [isort_congr (keyLe m) (exactLe m) pts
+      (fun x hx y hy => keyLe_eq_exactLe (inS_of_minLt (hmin x hx)) (inS_of_minLt (hmin y hy)))]
+
+/-- **C35.T2k** The results for the code's order: the hull of `hullKey` never repeats a point,
+starts at the `min_by` point, uses only input points, and consecutive triples turn strictly
+left. -/
+theorem c35_hullKey_spec (pts : List Pt) :
+    (hullKey pts).Nodup ∧
+    (∀ m, minPoint pts = some m → (hullKey pts).head? = some m) ∧
+    (∀ q ∈ hullKey pts, q ∈ pts) ∧
+    (∀ pre post a b c, hullKey pts = pre ++ a :: b :: c :: post → cross a b c > 0) := by
+  rw [hullKey_eq_hullExact]
+  exact ⟨c35_hullExact_nodup pts, fun m hm => c35_hullExact_starts_min pts m hm,
+    (c35_hullExact_subset_turns pts).1, (c35_hullExact_subset_turns pts).2⟩
+
+/-- The sorted list of the code's key order is sorted by angle (ties by distance). -/
+theorem c35_sorted_by_key (pts : List Pt) (m : Pt) (hm : minPoint pts = some m) :
+    (isort (keyLe m) pts).Pairwise (fun a b => keyLe m a b = true) := by
+  obtain ⟨_, hmin⟩ := c35_minPoint_spec pts m hm
+  have hS : ∀ y ∈ pts, InS m y := fun y hy => inS_of_minLt (hmin y hy)
+  rw [isort_congr (keyLe m) (exactLe m) pts (fun x hx y hy => keyLe_eq_exactLe (hS x hx) (hS y hy))]
+  refine (c35_sorted_by_angle pts m hm).imp_of_mem ?_
+  intro a b ha hb hab
+  rw [keyLe_eq_exactLe (hS a ((mem_isort _ a pts).mp ha)) (hS b ((mem_isort _ b pts).mp hb))]
+  exact hab
+
+/-- The key order differs from the orientation form outside the half-plane (so the restriction
+to input points in `keyLe_eq_exactLe` is needed), and agrees on a concrete input. -/
+example : keyLe (0, 0) (-1, 0) (0, -1) ≠ exactLe (0, 0) (-1, 0) (0, -1) := by decide
+example : hullKey [(0, 0), (2, 0), (4, 0), (4, 4), (0, 4), (2, 2), (4, 4), (2, 4)] =
+    [(0, 4), (0, 0), (4, 0), (4, 4)] := by decide
+
 end RtenVerif.Poly
